@@ -225,7 +225,22 @@ class Ctx:
         src = COQ / rel
         dst = self.build / (src.stem + "_static.v")
         dst.write_text(src.read_text())
-        return self.prove(dst, theorems=theorems, timeout=timeout)
+        res = self.prove(dst, theorems=theorems, timeout=timeout)
+        if not self.quick and res[0]:
+            self.coqchk("Bermuda." + rel[:-2].replace("/", "."))
+        return res
+
+    def coqchk(self, module: str, timeout=3000):
+        """Thorough tier: re-check a compiled static module and everything it depends on with the
+        independent checker and record the axioms it reports."""
+        cmd = ["coqchk", "-silent", "-o", "-Q", str(COQ), "Bermuda", module]
+        self.checker_cmds.append(" ".join(cmd))
+        rc, out = sh(cmd, timeout=timeout, cwd=ROOT)
+        summ = out[out.find("CONTEXT SUMMARY"):] if "CONTEXT SUMMARY" in out else out[-800:]
+        ax = re.search(r"\* Axioms:(.*?)\n\s*\n\* ", summ, re.S)
+        self.obligation(f"coqchk {module}", rc == 0, out[-1200:])
+        self.trusted.append(f"coqchk -o {module}: axioms: " + (re.sub(r"\s+", " ", ax.group(1)).strip() if ax else "?"))
+        return rc == 0
 
     def audit_tree(self, rels):
         """Forbidden-construct audit over static files (relative to coq/); failing = obligation."""
